@@ -1,8 +1,170 @@
 import Req.Driver.Proto
+import Req.Base.Base64
+import Req.Client.Auth
+import Req.Client.Digest
+import Req.Client.Rfc7616
 /-! Driver lanes of C20. -/
 namespace Req.Driver.L.C20
-open Req.Proto
+open Req.Proto Req.Digest
 
-def lanes : List (String × (List String → String)) := []
+/-- The lanes' stand-in for the hash: lower-case hex of a tag byte (which constructor) followed
+by the pre-image. The Go harness installs the same function into `hashFuncs`. -/
+def tagOf : Alg → UInt8
+  | .md5 => 109        -- 'm'
+  | .sha256 => 50      -- '2'
+  | .sha512_256 => 53  -- '5'
+  | .sha512 => 120     -- 'x'
+
+def idH (a : Alg) (data : Bytes) : Bytes := hex (tagOf a :: data)
+
+def errName : Err → String
+  | .badChallenge => "bad-challenge"
+  | .charset => "charset"
+  | .algNotSupported => "alg"
+  | .qopNotSupported => "qop"
+  | .rand => "rand"
+  | .bodySetup => "body-setup"
+  | .unreplayableBody => "unreplayable-body"
+
+def optHex : Option Bytes → String
+  | some b => "some:" ++ encodeHex b
+  | none => "none"
+
+def laneB64 : List String → String
+  | [s] =>
+    match decodeHex s with
+    | some bs => encodeHex (Req.Base64.encode bs)
+    | none => "bad-op"
+  | _ => "bad-op"
+
+def laneB64Dec : List String → String
+  | [s] =>
+    match decodeHex s with
+    | some bs => optHex (Req.Base64.decode bs)
+    | none => "bad-op"
+  | _ => "bad-op"
+
+def laneBasic : List String → String
+  | [u, p] =>
+    match decodeHex u, decodeHex p with
+    | some u, some p =>
+      let h := Req.Auth.basic u p
+      encodeHex h ++ " " ++
+        (match Req.Auth.serverBasic h with
+         | some (u', p') => encodeHex u' ++ " " ++ encodeHex p'
+         | none => "none")
+    | _, _ => "bad-op"
+  | _ => "bad-op"
+
+/-- server side only: arbitrary Authorization value → what an origin recovers -/
+def laneBasicDec : List String → String
+  | [h] =>
+    match decodeHex h with
+    | some h =>
+      (match Req.Auth.serverBasic h with
+       | some (u', p') => encodeHex u' ++ " " ++ encodeHex p'
+       | none => "none")
+    | none => "bad-op"
+  | _ => "bad-op"
+
+def laneBearer : List String → String
+  | [t] =>
+    match decodeHex t with
+    | some t =>
+      let h := Req.Auth.bearer t
+      encodeHex h ++ " " ++ optHex (Req.Auth.serverBearer h)
+    | none => "bad-op"
+  | _ => "bad-op"
+
+def chalFields (c : Challenge) : List Bytes :=
+  [c.realm, c.domain, c.nonce, c.opaq, c.stale, c.algorithm, c.qop, c.userhash]
+
+def chalOfFields : List Bytes → Option Challenge
+  | [realm, domain, nonce, opaq, stale, algorithm, qop, userhash] =>
+    some { realm, domain, nonce, opaq, stale, algorithm, qop, userhash }
+  | _ => none
+
+def laneParse : List String → String
+  | [raw] =>
+    match decodeHex raw with
+    | some raw =>
+      (match parseChallenge raw with
+       | .ok c => "ok " ++ encodeList (chalFields c)
+       | .error e => "err " ++ errName e)
+    | none => "bad-op"
+  | _ => "bad-op"
+
+def decodeRnd (s : String) : Option (Option Bytes) :=
+  if s == "x" then some none else (decodeHex s).map some
+
+def laneAuth : List String → String
+  | [chal, user, pass, method, uri, nc, rnd] =>
+    match decodeList chal, decodeHex user, decodeHex pass, decodeHex method, decodeHex uri,
+          nc.toNat?, decodeRnd rnd with
+    | some fs, some user, some pass, some method, some uri, some nc, some rnd =>
+      (match chalOfFields fs with
+       | some c =>
+         (match authorize idH algOf c { user, pass, method, uri, nc } rnd with
+          | .ok h => "ok " ++ encodeHex h
+          | .error e => "err " ++ errName e)
+       | none => "bad-op")
+    | _, _, _, _, _, _, _ => "bad-op"
+  | _ => "bad-op"
+
+def decodeBody (kind body : String) : Option Body :=
+  match kind, decodeHex body with
+  | "none", some _ => some .none
+  | "bytes", some b => some (.replayable b)
+  | "stream", some b => some (.stream b)
+  | _, _ => none
+
+/-- on the wire "no body" and "empty body" are the same observation -/
+def wireBody : Option Bytes → String
+  | some b => encodeHex b
+  | none => "_"
+
+def laneHandleWith (full : Bool) : List String → String
+  | [status, err, www, user, pass, method, uri, kind, body, rnd] =>
+    match status.toNat?, decodeHex www, decodeHex user, decodeHex pass, decodeHex method,
+          decodeHex uri, decodeBody kind body, decodeRnd rnd with
+    | some status, some www, some user, some pass, some method, some uri, some body, some rnd =>
+      (match handle idH algOf user pass method uri body rnd
+          { err := err == "1", status, wwwAuth := www } with
+       | .untouched => "untouched"
+       | .failed e => "err " ++ errName e
+       | .resend h b =>
+         if full then "resend " ++ encodeHex h ++ " " ++ wireBody b else "resend " ++ wireBody b)
+    | _, _, _, _, _, _, _, _ => "bad-op"
+  | _ => "bad-op"
+
+def decodeOpt (s : String) : Option (Option Bytes) :=
+  if s == "." then some none else (decodeHex s).map some
+
+/-- `c20verify realm nonce opaque|. algorithm|. qops userhash method uri user pass body hdr` -/
+def laneVerify : List String → String
+  | [realm, nonce, opaq, alg, qops, uh, method, uri, user, pass, body, hdr] =>
+    match decodeHex realm, decodeHex nonce, decodeOpt opaq, decodeOpt alg, decodeList qops,
+          decodeHex method, decodeHex uri, decodeHex user, decodeHex pass, decodeHex body,
+          decodeHex hdr with
+    | some realm, some nonce, some opaq, some algorithm, some qops, some method, some uri,
+      some user, some pass, some body, some hdr =>
+      let sc : Req.Rfc7616.Issued := { realm, nonce, opaq, algorithm, qops, userhash := uh == "1" }
+      toString (Req.Rfc7616.verify idH Req.Rfc7616.specAlg
+        { issued := sc, method, uri, user, pass, body } hdr)
+    | _, _, _, _, _, _, _, _, _, _, _ => "bad-op"
+  | _ => "bad-op"
+
+def lanes : List (String × (List String → String)) := [
+  ("c20b64", laneB64),
+  ("c20b64dec", laneB64Dec),
+  ("c20basic", laneBasic),
+  ("c20basicdec", laneBasicDec),
+  ("c20bearer", laneBearer),
+  ("c20parse", laneParse),
+  ("c20auth", laneAuth),
+  ("c20handle", laneHandleWith true),
+  ("c20kind", laneHandleWith false),
+  ("c20verify", laneVerify)
+]
 
 end Req.Driver.L.C20
